@@ -100,5 +100,30 @@ ThmOutside ==   \* nothing outside the scrolling region moves when the region sc
   \A k \in Ks : \A y \in 1..Rows : (y < q.top \/ y > q.bot) =>
      /\ SU(q, k).grid[y] = q.grid[y] /\ SD(q, k).grid[y] = q.grid[y]
      /\ IL(q, k).grid[y] = q.grid[y] /\ DL(q, k).grid[y] = q.grid[y]
-Theorems == ThmIter /\ ThmIndex /\ ThmErase /\ ThmSaveRestore /\ ThmAltBuffers /\ ThmSgr21 /\ ThmPrint /\ ThmRegion /\ ThmOutside
+(* A cluster measured wider than two columns is shown as a narrow or as a   *)
+(* wide glyph, and in every other respect like a cluster of that width.     *)
+(* (That, and ThmHuge, is why Ops needs no such print and no such value:    *)
+(* their outcomes are outcomes of operations that are in Ops.)              *)
+ThmOddWidth ==
+  /\ \A w \in {3, 4} : Outcomes(s, [op |-> "PRINT", g |-> 3, w |-> w])
+                         = Outcomes(s, [op |-> "PRINT", g |-> 3, w |-> 1]) \cup Outcomes(s, [op |-> "PRINT", g |-> 3, w |-> 2])
+  /\ \A w \in {1, 2} : Outcomes(s, [op |-> "PRINT", g |-> 3, w |-> w]) = One(PrintG(s, 3, w))
+  /\ Outcomes(s, [op |-> "PRINTS", gs |-> <<<<1, 1>>, <<2, 2>>>>]) = One(PrintG(PrintG(s, 1, 1), 2, 2))
+  /\ Outcomes(s, [op |-> "PRINTS", gs |-> <<<<3, 3>>, <<1, 1>>>>])
+       = {Out(PrintG(PrintG(s, 3, v), 1, 1), FALSE) : v \in {1, 2}}
+  /\ \A o \in Outcomes(s, [op |-> "PRINTS", gs |-> <<<<3, 4>>, <<3, 3>>>>]) : WellFormedVT(o.s)
+(* A huge parameter acts like any value just beyond the screen: counts and  *)
+(* positions saturate, an unknown selection does nothing.                   *)
+Beyond == MaxI(Rows, Cols) + 1
+ThmHuge ==
+  /\ \A o \in {"CUU", "CUD", "CUF", "CUB", "CNL", "CPL", "CHA", "HPA", "VPA", "ECH", "ICH", "DCH", "IL", "DL", "SU", "SD"} :
+       Outcomes(s, [op |-> o, ps |-> <<HugeParam>>]) = Outcomes(s, [op |-> o, ps |-> <<Beyond>>])
+  /\ \A o \in {"CUP", "HVP"} : \A a, b \in {-1, 1, HugeParam} :
+       LET f(v) == IF v = HugeParam THEN Beyond ELSE v IN
+       Outcomes(s, [op |-> o, ps |-> <<a, b>>]) = Outcomes(s, [op |-> o, ps |-> <<f(a), f(b)>>])
+  /\ \A a, b \in {-1, 1, HugeParam} :
+       LET f(v) == IF v = HugeParam THEN Rows + 1 ELSE v IN
+       Outcomes(s, [op |-> "DECSTBM", ps |-> <<a, b>>]) = Outcomes(s, [op |-> "DECSTBM", ps |-> <<f(a), f(b)>>])
+  /\ \A o \in {"ED", "EL"} : Outcomes(s, [op |-> o, ps |-> <<HugeParam>>]) = One(q)
+Theorems == ThmOddWidth /\ ThmHuge /\ ThmIter /\ ThmIndex /\ ThmErase /\ ThmSaveRestore /\ ThmAltBuffers /\ ThmSgr21 /\ ThmPrint /\ ThmRegion /\ ThmOutside
 =============================================================================
